@@ -80,9 +80,29 @@ def make_case(seed, shard, i):
     return {"prog": prog, "rows": rows, "comment": cm, "placement": placement}
 
 
+_READS = {"n": 0}
+
+
+def install_read_hook():
+    from csvpath import CsvPath
+
+    if getattr(CsvPath, "_vfy_reads", False):
+        return
+    orig = CsvPath.track_line
+
+    def track_line(self, line):
+        _READS["n"] += 1
+        return orig(self, line)
+
+    CsvPath.track_line = track_line
+    CsvPath._vfy_reads = True
+
+
 def do_run(text, agg, capture_stdout=True):
     from vfy import diffrun, env, hooks
 
+    install_read_hook()
+    _READS["n"] = 0
     c, cap = env.new_csvpath(["collect", "print"])
     with env.quiet_stdout() as q, hooks.recording(agg) as rec:
         try:
@@ -97,6 +117,7 @@ def do_run(text, agg, capture_stdout=True):
         "rec": rec,
         "printed": list(cap.lines),
         "stdout": q.buf.getvalue(),
+        "records_read": _READS["n"],
         "trace": [(ev["pln"], ev["considered"], bool(ev["ret"]), diffrun.norm_vars(ev["vars"]), ev["valid"], ev["stopped"], ev["match"], ev["scan"]) for ev in rec.lines],
     }
 
@@ -143,6 +164,9 @@ def run_case(case, agg):
         return "comment-leaks-into-csvpath", w
     # ---- run-mode
     if modes["run-mode"] == "no-run":
+        if run["records_read"]:
+            w["records_read"] = run["records_read"]
+            return "no-run-reads-the-file", w
         if run["rec"].lines or run["lines"] or run["printed"] or {k: v for k, v in c.variables.items() if not k.startswith("_intx")}:
             w["line_events"] = len(run["rec"].lines)
             w["lines"] = run["lines"]
